@@ -2,11 +2,13 @@
 # in a lot of cases, but since the transformations on them could be quite
 # complex, the deepcopy method is good enough sometimes.
 from copy import deepcopy
-from xml.sax.saxutils import escape
+from xml.sax.saxutils import escape, quoteattr
 
 from bs4 import BeautifulSoup
 
-from .base import DFXPWriter, DFXP_DEFAULT_REGION
+from .base import (
+    DFXPWriter, DFXP_DEFAULT_REGION, AttributeEscapingFormatter,
+)
 from ..base import BaseWriter, CaptionNode, merge_concurrent_captions
 
 LEGACY_DFXP_BASE_MARKUP = '''
@@ -140,7 +142,8 @@ class LegacyDFXPWriter(BaseWriter):
 
             body.append(div)
 
-        caption_content = dfxp.prettify(formatter=None)
+        caption_content = dfxp.prettify(
+            formatter=AttributeEscapingFormatter())
         return caption_content
 
     # force the DFXP to only have one language, trying to match on "force"
@@ -212,7 +215,7 @@ class LegacyDFXPWriter(BaseWriter):
 
             content_with_style = self._recreate_style(node.content, dfxp)
             for style, value in list(content_with_style.items()):
-                styles += f' {style}="{value}"'
+                styles += f' {style}={quoteattr(value)}'
 
             if styles:
                 if self.open_span:
